@@ -14,7 +14,8 @@ def units(tier):
 def runner_tasks(tier):
     return [{"module": "c18", "task": "code_tables", "kind": "eval", "clause": "every code of the three tables; ambiguity averages"},
             {"module": "c18", "task": "additivity", "kind": "bounded", "clause": "random sequences, permutations, prefixes"},
-            {"module": "c18", "task": "fasta_files", "kind": "bounded", "clause": "FASTA records and type by extension"}]
+            {"module": "c18", "task": "fasta_files", "kind": "bounded", "clause": "FASTA records and type by extension"},
+            {"module": "stateful", "task": "C18", "name": "stateful C18", "kind": "bounded", "clause": "sequences built after single codes were requested through the prefixes on a private table and after callers edited the formulas they were given"}]
 
 
 REPLAY = {"module": "c18", "task": "replay"}
